@@ -86,3 +86,125 @@ def g1_case(draw, min_nodes=2, max_nodes=7, with_select=True):
         if p not in values and draw(st.floats(0, 1)) < (0.4 if p in optional else 0.3):
             values[p] = ["in", p, 1]
     return {"nodes": nodes, "bind": bind, "values": values, "select": select}
+
+
+# ------------------------------------------------------------------------------------
+# G2 - control flow: gates, optional cycle, emit/wait_for, failing nodes
+# ------------------------------------------------------------------------------------
+
+
+def _reorder(node):
+    d = node.get("defaults", {})
+    node["params"] = [p for p in node["params"] if p not in d] + [p for p in node["params"] if p in d]
+
+
+def _name_defaults(nodes):
+    dd = {}
+    for n in nodes:
+        for p, v in n.get("defaults", {}).items():
+            dd[p] = v
+    return dd
+
+
+def _consumed(nodes):
+    return {p for n in nodes for p in n.get("params", [])}
+
+
+@st.composite
+def g2_nodes(draw, max_nodes=6, p_cycle=0.4, p_signal=0.3, p_fail=0.25, min_gates=1, max_gates=3):
+    base = draw(g1_nodes(2, max_nodes))
+    funcs = [n["name"] for n in base]
+    prod = ref.producers(base)
+    names = []
+    for n in base:
+        for p in n["params"]:
+            if p not in names:
+                names.append(p)
+        for o in n["outs"]:
+            if o not in names:
+                names.append(o)
+    dd = _name_defaults(base)
+    consumed = _consumed(base)
+    gates = []
+    for gi in range(draw(st.integers(min_gates, max_gates))):
+        k = draw(st.integers(0, 2)) if names else 0
+        params = []
+        for _ in range(k):
+            p = draw(st.sampled_from(names))
+            if p not in params:
+                params.append(p)
+        # shared parameters must agree on defaults with the other consumers
+        defaults = {p: dd[p] for p in params if p in dd and p in consumed}
+        g = {"name": f"g{gi}", "params": params, "defaults": defaults, "default_open": draw(st.booleans())}
+        _reorder(g)
+        pool = funcs + ["END"]
+        if draw(st.booleans()):
+            g["k"] = "ifelse"
+            t = draw(st.sampled_from(funcs))
+            f = draw(st.sampled_from([x for x in pool if x != t]))
+            if draw(st.booleans()):
+                t, f = f, t
+            g["t"], g["f"] = t, f
+            g["table"] = draw(st.lists(st.booleans(), min_size=1, max_size=3))
+        else:
+            g["k"] = "route"
+            first = draw(st.sampled_from(funcs))
+            rest = draw(st.lists(st.sampled_from(pool), max_size=2))
+            targets = list(dict.fromkeys([first] + rest))
+            g["targets"] = draw(st.permutations(targets))
+            g["multi"] = draw(st.floats(0, 1)) < 0.3
+            if g["multi"]:
+                entry = st.lists(st.sampled_from(g["targets"]), max_size=len(g["targets"]), unique=True)
+                g["table"] = draw(st.lists(st.one_of(entry, st.none()) if draw(st.booleans()) else entry, min_size=1, max_size=3))
+                g["fallback"] = None
+            else:
+                g["fallback"] = draw(st.sampled_from(pool)) if draw(st.floats(0, 1)) < 0.3 else None
+                opts = list(g["targets"]) + [None]
+                g["table"] = draw(st.lists(st.sampled_from(opts), min_size=1, max_size=3))
+        gates.append(g)
+    nodes = [dict(n) for n in base] + gates
+    labels = set()
+    # --- optional cycle: a late node's output takes the name of a graph input of an earlier node
+    if draw(st.floats(0, 1)) < p_cycle:
+        cands = []
+        for li in range(1, len(base)):
+            if not base[li]["outs"]:
+                continue
+            for ei in range(0, li + 1):
+                for p in base[ei]["params"]:
+                    if p not in prod:
+                        cands.append((li, p))
+        if cands:
+            li, x = draw(st.sampled_from(sorted(set(cands))))
+            L = nodes[li]
+            o = L["outs"][draw(st.integers(0, len(L["outs"]) - 1))]
+            L["outs"] = [x if y == o else y for y in L["outs"]]
+            for n in nodes:
+                if o in n["params"] and x in n["params"]:
+                    n["params"] = [p for p in n["params"] if p != o]
+                n["params"] = [x if p == o else p for p in n["params"]]
+                dflt = dict(n.get("defaults", {}))
+                dflt.pop(o, None)
+                dflt.pop(x, None)
+                n["defaults"] = dflt
+                _reorder(n)
+            labels.add("cycle")
+    # --- optional ordering signal
+    if draw(st.floats(0, 1)) < p_signal and len(nodes) >= 2:
+        pi = draw(st.integers(0, len(nodes) - 1))
+        wi = draw(st.integers(0, len(nodes) - 2))
+        if wi >= pi:
+            wi += 1
+        nodes[pi] = {**nodes[pi], "emit": ["sig0"]}
+        nodes[wi] = {**nodes[wi], "wait_for": ["sig0"]}
+        labels.add("signal")
+    # --- optional failing function node
+    if draw(st.floats(0, 1)) < p_fail:
+        nf = draw(st.sampled_from([1, 1, 2, 2, 3]))
+        for fi in draw(st.permutations(list(range(len(base)))))[:nf]:
+            nodes[fi] = {**nodes[fi], "fail": draw(st.sampled_from(["always", "always", {"mod": 2, "eq": 0}, {"mod": 3, "eq": 1}]))}
+        labels.add("failing_node")
+        if nf > 1:
+            labels.add("failing_nodes>=2")
+    nodes = draw(permuted(nodes))
+    return nodes, sorted(labels)
